@@ -602,7 +602,14 @@ def heap_fn(name, fields, rsort, rwrap):
             ty = parse_type(ex.reg.field_types[fld])
             for i, srt in enumerate(flat_sorts(ty)):
                 arrs.append(st.harr(f"{fld}#{i}", z3.IntSort(), srt))
-        argv = [recv.e] + [flat(a)[0] if not isinstance(a, VOpt) else a.val.e for a in args] + arrs
+        def arg(a):
+            if isinstance(a, VOpt):
+                return a.val.e
+            fl = flat(a)
+            # the literal None (no string component): a reserved string that is no path
+            return fl[0] if fl else z3.StringVal("\x00None")
+
+        argv = [recv.e] + [arg(a) for a in args] + arrs
         fn = z3.Function(name, *([a.sort() for a in argv] + [rsort]))
         return rwrap(fn(*argv))
 
@@ -613,6 +620,15 @@ ROUTE_FIELDS = ["MHLHistory.child_history_mappings", "MHLHistory.child_histories
 heap_fn("route_h", ROUTE_FIELDS, I, lambda e: VRef("MHLHistory", e, False))
 heap_fn("route_p", ROUTE_FIELDS, S, lambda e: VStr(e))
 heap_fn("route_p_none", ROUTE_FIELDS, B, lambda e: VBool(e))
+
+
+@SPEC.fn("dict_is_empty")
+def _dict_is_empty(ex, st, d):
+    """no key is present"""
+    k = z3.Const(fresh_name("k"), d.keys.sort().basis())
+    if isinstance(d.vty, TRef):
+        return VBool(z3.And(z3.Length(d.keys) == 0, z3.ForAll([k], z3.Select(d.m, k) == 0)))
+    return VBool(z3.Length(d.keys) == 0)
 
 
 @SPEC.fn("dict_same_except")
